@@ -284,12 +284,19 @@ def parse_ec_private_key(data):
     return d, oid, pub
 
 
-def pkcs8(curve_oid, ecpriv_der, version=0, alg=OID_EC_PUBLIC_KEY):
-    return enc_seq(
+def pkcs8(curve_oid, ecpriv_der, version=0, alg=OID_EC_PUBLIC_KEY, attributes=None, public_key=None):
+    """RFC 5958 OneAsymmetricKey.  attributes: DER of the SET OF Attribute content (goes into [0] IMPLICIT);
+    public_key: bytes of the v2 publicKey BIT STRING content (goes into [1] IMPLICIT, primitive)."""
+    parts = [
         enc_int(version),
         enc_seq(enc_oid(alg), enc_oid(curve_oid)),
         enc_octet(ecpriv_der),
-    )
+    ]
+    if attributes is not None:
+        parts.append(enc_tlv(0xA0, attributes))
+    if public_key is not None:
+        parts.append(enc_tlv(0x81, b"\x00" + bytes(public_key)))
+    return enc_seq(*parts)
 
 
 def parse_pkcs8(data):
